@@ -49,6 +49,8 @@ func createASTTypeExpr(pkg string, t types.Type, varPool *VarPool, imports map[s
 					IsDefaultName: newPkgName == pkgName,
 					IsUsed:        false, // Will be marked during code generation
 				}
+				// The type is spelled with the name the import is declared under
+				pkgName = newPkgName
 			}
 
 			namedExpr = &ast.SelectorExpr{
@@ -92,6 +94,8 @@ func createASTTypeExpr(pkg string, t types.Type, varPool *VarPool, imports map[s
 					IsDefaultName: newPkgName == pkgName,
 					IsUsed:        false, // Will be marked during code generation
 				}
+				// The type is spelled with the name the import is declared under
+				pkgName = newPkgName
 			}
 
 			return &ast.SelectorExpr{
